@@ -58,6 +58,7 @@ VARIABLES
     ackq,      \* receiver: lengths of received DATA messages not yet acknowledged
     fin,       \* receiver: the empty DATA (finish flag) has been received
     rsize,     \* receiver: announced size of the current file
+    nann,      \* receiver: number of files announced by the NUM line it received (0 before)
     dst,       \* [1..NF -> Seq(block)]  destination content
     made,      \* set of entries created at the destination
     rdig,      \* receiver: sequence of blocks it has hashed
@@ -71,7 +72,7 @@ VARIABLES
     quiet,     \* ticks the server has been waiting without receiving anything while the client is paused
     maxquiet   \* the largest value quiet has reached (history, for ShortPauseCompletes)
 
-vars == <<cf, chan, dead, pc, fi, rem, outst, sdig, got, ackq, fin, rsize, dst, made, rdig, result, fileOK,
+vars == <<cf, chan, dead, pc, fi, rem, outst, sdig, got, ackq, fin, rsize, nann, dst, made, rdig, result, fileOK,
           stopped, faults, told, paused, npause, quiet, maxquiet>>
 
 Stp(r) == stopped[r] # "no"
@@ -88,7 +89,7 @@ Init ==
     /\ pc = [r \in Roles |-> IF r = "C" THEN "c_act" ELSE "v_act"]
     /\ fi = [r \in Roles |-> 0]
     /\ rem = 0 /\ outst = <<>> /\ sdig = Empty
-    /\ got = Empty /\ ackq = <<>> /\ fin = FALSE /\ rsize = 0
+    /\ got = Empty /\ ackq = <<>> /\ fin = FALSE /\ rsize = 0 /\ nann = 0
     /\ dst = [f \in 1..NF |-> Empty] /\ made = {} /\ rdig = Empty
     /\ result = [r \in Roles |-> "run"] /\ fileOK = [r \in Roles |-> {}]
     /\ stopped = [r \in Roles |-> "no"] /\ faults = 0 /\ told = [r \in Roles |-> FALSE]
@@ -130,11 +131,11 @@ Expect(r) ==
       [] OTHER -> "none"
 
 PauseVars == <<paused, npause, quiet, maxquiet>>
-UnchangedData == UNCHANGED <<made, cf, rem, outst, sdig, got, ackq, fin, rsize, dst, rdig, fileOK, faults, dead, fi>>
+UnchangedData == UNCHANGED <<made, cf, rem, outst, sdig, got, ackq, fin, rsize, nann, dst, rdig, fileOK, faults, dead, fi>>
 
 (* deleteCreatedFiles: everything this transfer created at the destination is removed *)
 DeleteCreated == /\ made' = {} /\ dst' = [f \in 1..NF |-> Empty]
-                 /\ UNCHANGED <<cf, rem, outst, sdig, got, ackq, fin, rsize, rdig, fileOK, faults, dead, fi>>
+                 /\ UNCHANGED <<cf, rem, outst, sdig, got, ackq, fin, rsize, nann, rdig, fileOK, faults, dead, fi>>
 
 (* a fail line "Stopped and deleted" (a = 1) makes a receiving server delete what it created *)
 BadMessage(r) ==
@@ -206,7 +207,7 @@ SRecvNumAck ==
     /\ IF HeadMsg(S).a = NF /\ HeadMsg(S).b = 0 /\ HeadMsg(S).ok = 0
        THEN /\ chan' = Pop(chan, S) /\ Keep(S)
             /\ Go(S, IF NF = 0 THEN (IF S = "C" THEN "c_exit" ELSE "v_exit") ELSE "s_name")
-            /\ fi' = [fi EXCEPT ![S] = IF NF = 0 THEN 0 ELSE 1] /\ UNCHANGED <<made, rem, outst, sdig, got, ackq, fin, rsize, dst, rdig, fileOK, faults, dead>>
+            /\ fi' = [fi EXCEPT ![S] = IF NF = 0 THEN 0 ELSE 1] /\ UNCHANGED <<made, rem, outst, sdig, got, ackq, fin, rsize, nann, dst, rdig, fileOK, faults, dead>>
        ELSE Fail(S, "fail", FALSE) /\ UnchangedData
 
 SSendName ==
@@ -223,9 +224,9 @@ SRecvNameAck ==
                THEN /\ Go(S, NextFileS(f))
                     /\ fi' = [fi EXCEPT ![S] = IF f < NF THEN f + 1 ELSE f]
                     /\ fileOK' = [fileOK EXCEPT ![S] = @ \cup {f}]
-                    /\ UNCHANGED <<made, rem, outst, sdig, got, ackq, fin, rsize, dst, rdig, faults, dead>>
+                    /\ UNCHANGED <<made, rem, outst, sdig, got, ackq, fin, rsize, nann, dst, rdig, faults, dead>>
                ELSE /\ Go(S, "s_size")
-                    /\ UNCHANGED <<made, rem, outst, sdig, got, ackq, fin, rsize, dst, rdig, fileOK, faults, dead, fi>>
+                    /\ UNCHANGED <<made, rem, outst, sdig, got, ackq, fin, rsize, nann, dst, rdig, fileOK, faults, dead, fi>>
 
 SSendSize ==
     /\ Running(S) /\ pc[S] = "s_size" /\ ~Stp(S)
@@ -239,7 +240,7 @@ SRecvSizeAck ==
        ELSE /\ chan' = Pop(chan, S) /\ Keep(S)
             /\ Go(S, IF Proto >= 3 /\ Files[f].comp THEN "s_comp" ELSE "s_data")
             /\ rem' = Files[f].size /\ outst' = <<>> /\ sdig' = Empty
-            /\ UNCHANGED <<made, got, ackq, fin, rsize, dst, rdig, fileOK, faults, dead, fi>>
+            /\ UNCHANGED <<made, got, ackq, fin, rsize, nann, dst, rdig, fileOK, faults, dead, fi>>
 
 SSendComp ==
     /\ Running(S) /\ pc[S] = "s_comp" /\ ~Stp(S)
@@ -257,13 +258,13 @@ SSendData1(c) ==
     /\ chan' = Send(R, Msg("DATA", c, c, 0))
     /\ rem' = rem - c /\ outst' = <<c>> /\ sdig' = Plus(sdig, c, 0)
     /\ Go(S, "s_ack1") /\ Keep(S)
-    /\ UNCHANGED <<made, got, ackq, fin, rsize, dst, rdig, fileOK, faults, dead, fi>>
+    /\ UNCHANGED <<made, got, ackq, fin, rsize, nann, dst, rdig, fileOK, faults, dead, fi>>
 
 SRecvAck1 ==
     /\ Running(S) /\ pc[S] = "s_ack1" /\ ~Stp(S) /\ RecvOK(S, "SUCC")
     /\ IF HeadMsg(S).a # outst[1] \/ HeadMsg(S).b # 0 \/ HeadMsg(S).ok # 0 THEN Fail(S, "fail", FALSE) /\ UnchangedData
        ELSE /\ chan' = Pop(chan, S) /\ outst' = <<>> /\ Go(S, "s_data") /\ Keep(S)
-            /\ UNCHANGED <<made, rem, sdig, got, ackq, fin, rsize, dst, rdig, fileOK, faults, dead, fi>>
+            /\ UNCHANGED <<made, rem, sdig, got, ackq, fin, rsize, nann, dst, rdig, fileOK, faults, dead, fi>>
 
 (* protocol >= 2 (sendFileDataV2): DATA messages are sent ahead of their acks up to Window;  *)
 (* a = length on the wire (encoded), c = source units the message stands for; after the last *)
@@ -275,14 +276,14 @@ SSendData2(a, c) ==
     /\ chan' = Send(R, Msg("DATA", a, c, 0))
     /\ rem' = rem - c /\ outst' = Append(outst, a) /\ sdig' = Plus(sdig, c, 0)
     /\ UNCHANGED pc /\ Keep(S)
-    /\ UNCHANGED <<made, got, ackq, fin, rsize, dst, rdig, fileOK, faults, dead, fi>>
+    /\ UNCHANGED <<made, got, ackq, fin, rsize, nann, dst, rdig, fileOK, faults, dead, fi>>
 
 SSendFinish ==
     /\ Proto >= 2 /\ Running(S) /\ pc[S] = "s_data" /\ ~Stp(S) /\ PauseOK(S)
     /\ Len(outst) < Window /\ rem = 0
     /\ chan' = Send(R, Msg("DATA", 0, 0, 0)) /\ outst' = Append(outst, 0)
     /\ Go(S, "s_acks") /\ Keep(S)
-    /\ UNCHANGED <<made, rem, sdig, got, ackq, fin, rsize, dst, rdig, fileOK, faults, dead, fi>>
+    /\ UNCHANGED <<made, rem, sdig, got, ackq, fin, rsize, nann, dst, rdig, fileOK, faults, dead, fi>>
 
 (* pipelineRecvAck: SUCC(len/step) must echo the length of the oldest unacknowledged DATA    *)
 SRecvAck2 ==
@@ -291,7 +292,7 @@ SRecvAck2 ==
     /\ IF (Weaken # "ack_len" /\ HeadMsg(S).a # outst[1]) \/ HeadMsg(S).b < 0 THEN Fail(S, "fail", FALSE) /\ UnchangedData
        ELSE /\ chan' = Pop(chan, S) /\ outst' = Tail(outst) /\ Keep(S)
             /\ Go(S, IF pc[S] = "s_acks" /\ Len(outst) = 1 THEN "s_final" ELSE pc[S])
-            /\ UNCHANGED <<made, rem, sdig, got, ackq, fin, rsize, dst, rdig, fileOK, faults, dead, fi>>
+            /\ UNCHANGED <<made, rem, sdig, got, ackq, fin, rsize, nann, dst, rdig, fileOK, faults, dead, fi>>
 
 (* pipelineRecvFinalAck: SUCC(step) until step = size; step > size is an error                *)
 SRecvFinal ==
@@ -315,11 +316,11 @@ SRecvMD5Ack ==
             /\ fileOK' = [fileOK EXCEPT ![S] = @ \cup {f}]
             /\ Go(S, NextFileS(f))
             /\ fi' = [fi EXCEPT ![S] = IF f < NF THEN f + 1 ELSE f]
-            /\ UNCHANGED <<made, rem, outst, sdig, got, ackq, fin, rsize, dst, rdig, faults, dead>>
+            /\ UNCHANGED <<made, rem, outst, sdig, got, ackq, fin, rsize, nann, dst, rdig, faults, dead>>
 
 -----------------------------------------------------------------------------
 (* Receiver of files (recvFiles).                                                             *)
-NextFileR(f) == IF f < NF THEN "r_name" ELSE (IF R = "C" THEN "c_exit" ELSE "v_exit")
+NextFileR(f) == IF f < nann THEN "r_name" ELSE (IF R = "C" THEN "c_exit" ELSE "v_exit")
 
 RRecvNum ==
     /\ Running(R) /\ pc[R] = "r_num" /\ ~Stp(R) /\ RecvOK(R, "NUM")
@@ -327,7 +328,7 @@ RRecvNum ==
        /\ chan' = [Pop(chan, R) EXCEPT ![S] = IF dead[S] THEN @ ELSE Append(@, Msg("SUCC", n, 0, 0))]
        /\ Go(R, IF n = 0 THEN (IF R = "C" THEN "c_exit" ELSE "v_exit") ELSE "r_name")
        /\ fi' = [fi EXCEPT ![R] = 0]
-       /\ rsize' = n      \* number of files announced (re-used register, reset at the first NAME)
+       /\ rsize' = 0 /\ nann' = n
     /\ Keep(R) /\ UNCHANGED <<made, rem, outst, sdig, got, ackq, fin, dst, rdig, fileOK, faults, dead>>
 
 (* recvFileName: create the file (truncating), answer with the local name *)
@@ -342,13 +343,13 @@ RRecvName ==
             /\ IF Files[f].dir
                THEN /\ Go(R, NextFileR(f)) /\ fileOK' = [fileOK EXCEPT ![R] = @ \cup {f}]
                ELSE /\ Go(R, "r_size") /\ fileOK' = fileOK
-            /\ UNCHANGED <<rem, outst, sdig, got, ackq, fin, rsize, rdig, faults, dead>>
+            /\ UNCHANGED <<rem, outst, sdig, got, ackq, fin, rsize, nann, rdig, faults, dead>>
 
 RRecvSize ==
     /\ Running(R) /\ pc[R] = "r_size" /\ ~Stp(R) /\ RecvOK(R, "SIZE")
     /\ LET n == HeadMsg(R).a IN
        /\ chan' = [Pop(chan, R) EXCEPT ![S] = IF dead[S] THEN @ ELSE Append(@, Msg("SUCC", n, 0, 0))]
-       /\ rsize' = n /\ got' = Empty /\ ackq' = <<>> /\ fin' = FALSE /\ rdig' = Empty
+       /\ rsize' = n /\ nann' = nann /\ got' = Empty /\ ackq' = <<>> /\ fin' = FALSE /\ rdig' = Empty
        /\ Go(R, IF Proto >= 3 /\ Files[fi[R]].comp THEN "r_comp" ELSE (IF Proto < 2 THEN "r_data1" ELSE "r_data"))
     /\ Keep(R) /\ UNCHANGED <<made, rem, outst, sdig, dst, fileOK, faults, dead, fi>>
 
@@ -370,7 +371,7 @@ RRecvData1 ==
        /\ chan' = [Pop(chan, R) EXCEPT ![S] = IF dead[S] THEN @ ELSE Append(@, Msg("SUCC", m.b, 0, 0))]
        /\ dst' = [dst EXCEPT ![f] = Plus(@, m.b, m.ok)] /\ rdig' = Plus(rdig, m.b, m.ok)
     /\ UNCHANGED pc /\ Keep(R)
-    /\ UNCHANGED <<made, rem, outst, sdig, got, ackq, fin, rsize, fileOK, faults, dead, fi>>
+    /\ UNCHANGED <<made, rem, outst, sdig, got, ackq, fin, rsize, nann, fileOK, faults, dead, fi>>
 
 (* protocol >= 2: pipelineRecvData takes DATA messages (an empty one is the finish flag);    *)
 (* got = units received but not yet decoded and written                                       *)
@@ -381,7 +382,7 @@ RRecvData2 ==
        /\ got' = Plus(got, m.b, m.ok) /\ ackq' = Append(ackq, m.a)
        /\ fin' = (m.a = 0)
     /\ UNCHANGED pc /\ Keep(R)
-    /\ UNCHANGED <<made, rem, outst, sdig, rsize, dst, rdig, fileOK, faults, dead, fi>>
+    /\ UNCHANGED <<made, rem, outst, sdig, rsize, nann, dst, rdig, fileOK, faults, dead, fi>>
 
 (* pipelineDecodeData + pipelineSaveData: n of the received units are decoded and written     *)
 RSave(n) ==
@@ -390,7 +391,7 @@ RSave(n) ==
     /\ rdig' = Plus(rdig, n, got.ok)
     /\ got' = Cont(got.len - n, got.ok)
     /\ UNCHANGED <<chan, pc>> /\ Keep(R)
-    /\ UNCHANGED <<made, rem, outst, sdig, ackq, fin, rsize, fileOK, faults, dead, fi>>
+    /\ UNCHANGED <<made, rem, outst, sdig, ackq, fin, rsize, nann, fileOK, faults, dead, fi>>
 
 (* pipelineSendAck, first loop: SUCC(len/savedSteps) for each received DATA in order          *)
 RSendAck ==
@@ -398,7 +399,7 @@ RSendAck ==
     /\ chan' = Send(S, Msg("SUCC", ackq[1], Saved, 0))
     /\ ackq' = Tail(ackq)
     /\ UNCHANGED pc /\ Keep(R)
-    /\ UNCHANGED <<made, rem, outst, sdig, got, fin, rsize, dst, rdig, fileOK, faults, dead, fi>>
+    /\ UNCHANGED <<made, rem, outst, sdig, got, fin, rsize, nann, dst, rdig, fileOK, faults, dead, fi>>
 
 (* pipelineSendAck, second loop: SUCC(savedSteps) (repeated every 200 ms) until it equals    *)
 (* the announced size; saved > size, or everything decoded and saved # size, is an error     *)
@@ -426,7 +427,7 @@ RRecvMD5 ==
        ELSE /\ chan' = [Pop(chan, R) EXCEPT ![S] = IF dead[S] THEN @ ELSE Append(@, Msg("SUCC", rdig.len, -7, rdig.ok))]    \* b = -7: an encoded digest, not a number
             /\ fileOK' = [fileOK EXCEPT ![R] = @ \cup {f}]
             /\ Go(R, NextFileR(f)) /\ Keep(R)
-            /\ UNCHANGED <<made, rem, outst, sdig, got, ackq, fin, rsize, dst, rdig, faults, dead, fi>>
+            /\ UNCHANGED <<made, rem, outst, sdig, got, ackq, fin, rsize, nann, dst, rdig, faults, dead, fi>>
 
 -----
 (* Exit exchange.                                                                             *)
@@ -465,6 +466,7 @@ Damage(m) ==   \* a message that no longer carries what was sent.  Encoded paylo
          THEN {[m EXCEPT !.ok = faults + 1], [m EXCEPT !.t = "JUNK"]}
     ELSE {[m EXCEPT !.ok = faults + 1], [m EXCEPT !.a = @ + 1], [m EXCEPT !.t = "JUNK"]}
             \cup (IF m.b > 0 THEN {[m EXCEPT !.b = @ - 1, !.ok = faults + 1]} ELSE {})
+            \cup (IF m.t = "NUM" /\ m.a > 0 THEN {[m EXCEPT !.a = @ - 1]} ELSE {})   \* "#NUM:1" -> "#NUM:0"
 
 Fault(r) ==
     /\ faults < MaxFaults /\ HasMsg(r)
@@ -474,7 +476,7 @@ Fault(r) ==
          \/ "dup" \in FaultKinds /\ chan' = [chan EXCEPT ![r] = InsertAt(@, i, @[i])] /\ dead' = dead
          \/ "dmg" \in FaultKinds /\ \E m \in Damage(chan[r][i]) : chan' = [chan EXCEPT ![r] = ReplaceAt(@, i, m)] /\ dead' = dead
          \/ "trunc" \in FaultKinds /\ chan' = [chan EXCEPT ![r] = SubSeq(@, 1, i - 1)] /\ dead' = [dead EXCEPT ![r] = TRUE]
-    /\ UNCHANGED <<made, cf, pc, fi, rem, outst, sdig, got, ackq, fin, rsize, dst, rdig, result, fileOK, stopped, told>>
+    /\ UNCHANGED <<made, cf, pc, fi, rem, outst, sdig, got, ackq, fin, rsize, nann, dst, rdig, result, fileOK, stopped, told>>
 
 RoleStep ==
     \/ CSendAct \/ VRecvAct \/ CRecvCfg
@@ -543,8 +545,16 @@ DstSame(f) == f \in made /\ (Files[f].dir \/ dst[f] = Src(f))
 Finished == \A r \in Roles : result[r] # "run"
 AnyOK == \E r \in Roles : result[r] = "ok"
 
-(* C01: success on either side => every named entry is at the destination, exactly           *)
-Fidelity == AnyOK => \A f \in 1..NF : DstSame(f)
+(* What a role's success is a success *for*: the sender claims every file it was given, the   *)
+(* receiver the files it was told about (the NUM line it received) and lists as saved.  With a *)
+(* damaged count ("#NUM:1" -> "#NUM:0") the receiver honestly reports "Saved 0 file/directory" *)
+(* while the sender fails on the echoed count: C02 speaks of "success for a file".            *)
+Claimed(r) == IF r = R THEN 1..(IF nann < NF THEN nann ELSE NF) ELSE 1..NF
+
+(* C01: success on either side => every entry that side names is at the destination, exactly *)
+Fidelity == \A r \in Roles : result[r] = "ok" => \A f \in Claimed(r) : DstSame(f)
+(* without faults the receiver is told about, and so claims, every file                       *)
+ClaimsAll == (faults = 0 /\ result[R] = "ok") => nann = NF
 
 (* C02/C10: a role that counts a file as done does so only when the destination has exactly   *)
 (* the source's blocks (the receiver at the moment it verified the digest, the sender once    *)
@@ -553,7 +563,7 @@ NoSilentCorruption ==
     \A r \in Roles : \A f \in fileOK[r] : DstSame(f) \/ (\E q \in Roles : result[q] = "stoppeddel")
 
 (* C10: a role reports success only when every file was completed and verified               *)
-NoFalseSuccess == \A r \in Roles : result[r] = "ok" => fileOK[r] = 1..NF
+NoFalseSuccess == \A r \in Roles : result[r] = "ok" => fileOK[r] = Claimed(r)
 
 (* the receiver never acknowledges more than it has saved, and never saves beyond size+junk  *)
 AckWithinSaved ==
@@ -585,7 +595,7 @@ Termination == <>[]Finished
 PeerTold == \A r \in Roles : (result[r] \in {"fail", "stopped"} /\ ~dead[Peer(r)] /\ pc[r] = "done") => TRUE
 
 TypeOK ==
-    /\ rem \in 0..8 /\ Len(outst) <= Window
+    /\ rem \in 0..8 /\ Len(outst) <= Window /\ nann \in 0..(NF + 1)
     /\ \A r \in Roles : result[r] \in {"run", "ok", "fail", "stopped", "stoppeddel", "refused"}
 
 =============================================================================
